@@ -222,9 +222,57 @@ def epoch_heuristic(ctx):
     return out
 
 
+def json_number_paths(ctx):
+    """what normalize_json_value writes back for each JSON spelling of a time"""
+    b = Builder(ctx, "shared-time-{impl#0}-normalize_json_value.", "TimeParser::normalize_json_value", {})
+    E, q = b.E, ctx.q
+    r = b.mk("B-4", "TimeParser::normalize_json_value replaces the value by: the unit heuristic's result for JSON integers (i64 and u64, "
+                    "error propagated), the floor of a JSON float (so -1.5 and \"1969-12-31T23:59:58.5Z\" are the same second), and the shared "
+                    "string parser's result for strings")
+    out = [b.results["B-4"]]
+    if not r:
+        return out
+    stores = oblig.events(E, r"^store\(\*value\)$")
+    if not oblig.need_anchor(r, stores, "assignment to *value"):
+        return out
+    r.nontrivial = True
+    seen = set()
+    for ev in stores:
+        src = E.trace(ev.args[0], ev.env, depth=10) | {sym.describe(ev.args[0])}
+        txt = " ".join(src)
+        span = f"{ev.span[0]}:{ev.span[1]}" if ev.span else None
+        if "Number::as_f64" in txt or "f64::" in txt or " as i64)" in txt and "f64" in txt:
+            seen.add("float")
+            if "f64::floor" not in txt:
+                r.status = "violated"
+                r.witness = {"what": "a JSON float time is converted to seconds without flooring (`as i64` truncates toward zero): -1.5 becomes -1 "
+                                     "while the ISO-8601 and integer spellings of that instant give -2",
+                             "span": span, "call": "TimeParser::normalize_json_value", "path": [], "model": {}}
+                return out
+        elif "Number::as_i64" in txt or "Number::as_u64" in txt:
+            seen.add("int")
+            if "normalize_integer_epoch" not in txt or not any(x.startswith("try(") for x in src):
+                r.status = "violated"
+                r.witness = {"what": "a JSON integer time is stored without going through the unit heuristic (or its failure is not propagated)",
+                             "span": span, "call": "TimeParser::normalize_json_value", "path": [], "model": {}}
+                return out
+        elif "parse_str_to_epoch_seconds" in txt:
+            seen.add("string")
+        else:
+            r.status = "violated"
+            r.witness = {"what": f"a value is written back that comes from none of the normalisers ({sorted(src)[:4]})",
+                         "span": span, "call": "TimeParser::normalize_json_value", "path": [], "model": {}}
+            return out
+    if seen != {"float", "int", "string"}:
+        r.status = "inconclusive"
+        r.notes.append(f"paths recognised: {sorted(seen)}")
+    return out
+
+
 def obligations(ctx):
     out = []
     out += epoch_heuristic(ctx)
+    out += json_number_paths(ctx)
     for oid, needle, label, what in SITES:
         ghosts = {"timeparser": ghost(r"TimeParser::parse_str_to_epoch_seconds$")}
         b = Builder(ctx, needle, label, ghosts)
